@@ -18,13 +18,99 @@ import sys
 import threading
 
 
+# -- opcode-level pre-emption ----------------------------------------------------
+# sys.settrace with frame.f_trace_opcodes crashes CPython 3.12.1 when several threads are
+# parked inside the traced code (the code objects are re-instrumented while they execute).
+# sys.monitoring lets the coordinating thread instrument every code object of the traced
+# files ONCE, before any simulated thread starts, and remove the instrumentation after
+# they have all been joined.
+
+_TOOL = 4
+_SIM_THREADS = {}     # thread ident -> SimThreads (only simulated client threads)
+
+
+def _codes_of_files(suffixes):
+    import types
+    out, seen = [], set()
+
+    def add_code(co):
+        if id(co) in seen:
+            return
+        seen.add(id(co))
+        if any(co.co_filename.endswith(s) for s in suffixes):
+            out.append(co)
+        for c in co.co_consts:
+            if isinstance(c, types.CodeType):
+                add_code(c)
+
+    def add_obj(o, depth=0):
+        if isinstance(o, (staticmethod, classmethod)):
+            o = o.__func__
+        if isinstance(o, property):
+            for f in (o.fget, o.fset, o.fdel):
+                if f is not None:
+                    add_obj(f, depth)
+            return
+        co = getattr(o, "__code__", None)
+        if isinstance(co, types.CodeType):
+            add_code(co)
+            return
+        w = getattr(o, "__wrapped__", None)
+        if w is not None and depth < 3:
+            add_obj(w, depth + 1)
+        if isinstance(o, type) and depth < 2:
+            for v in list(vars(o).values()):
+                add_obj(v, depth + 1)
+
+    for name in sorted(sys.modules):
+        m = sys.modules[name]
+        f = getattr(m, "__file__", None)
+        if not f or not any(f.endswith(s) for s in suffixes):
+            continue
+        for v in list(vars(m).values()):
+            if getattr(v, "__module__", None) == m.__name__:
+                add_obj(v)
+    return out
+
+
+def _instruction_event(code, offset):
+    sim = _SIM_THREADS.get(threading.get_ident())
+    if sim is not None and sim.cur is not None and sim.cur.thread is threading.current_thread():
+        sim.point("op:%s:%d" % (code.co_name, offset))
+
+
+def _instrument(sim, suffixes):
+    mon = sys.monitoring
+    codes = _codes_of_files(suffixes)
+    if mon.get_tool(_TOOL) is None:
+        mon.use_tool_id(_TOOL, "simkit")
+    mon.register_callback(_TOOL, mon.events.INSTRUCTION, _instruction_event)
+    for co in codes:
+        mon.set_local_events(_TOOL, co, mon.events.INSTRUCTION)
+    return codes
+
+
+def _uninstrument(codes):
+    mon = sys.monitoring
+    for co in codes:
+        mon.set_local_events(_TOOL, co, 0)
+    mon.register_callback(_TOOL, mon.events.INSTRUCTION, None)
+    mon.free_tool_id(_TOOL)
+    _SIM_THREADS.clear()
+
+
 class SimAbort(BaseException):
     """Raised inside simulated threads to unwind them (deadlock / step cap)."""
 
 
 class SimThreads:
-    def __init__(self, rng, switch_p=0.3, trace_files=(), step_cap=20000, on_point=None):
+    def __init__(self, rng, switch_p=0.3, trace_files=(), step_cap=20000, on_point=None,
+                 granularity="line"):
         self.rng = rng
+        # "line": pre-empt at Python line boundaries of traced files; "opcode": at every
+        # bytecode instruction of traced files (what the GIL really allows: a thread can
+        # lose the interpreter between any two instructions, also in the middle of a line)
+        self.granularity = granularity
         self.switch_p = switch_p
         self.trace_files = tuple(trace_files)
         self.step_cap = step_cap
@@ -52,17 +138,24 @@ class SimThreads:
 
     # -- running ---------------------------------------------------------------
     def run(self):
-        for t in self.threads:
-            t.thread.start()
-        first = self._pick()
-        self.cur = first
-        self.trace.append(first.tid)
-        first.sem.release()
-        self._main_sem.acquire()      # released when everything is finished/aborted
-        for t in self.threads:
-            t.thread.join(30)
-            if t.thread.is_alive():
-                raise RuntimeError("SimThreads: thread failed to terminate")
+        codes = []
+        if self.trace_files and self.granularity == "opcode":
+            codes = _instrument(self, self.trace_files)
+        try:
+            for t in self.threads:
+                t.thread.start()
+            first = self._pick()
+            self.cur = first
+            self.trace.append(first.tid)
+            first.sem.release()
+            self._main_sem.acquire()      # released when everything is finished/aborted
+            for t in self.threads:
+                t.thread.join(30)
+                if t.thread.is_alive():
+                    raise RuntimeError("SimThreads: thread failed to terminate")
+        finally:
+            if codes:
+                _uninstrument(codes)
 
     def _runnable(self):
         return [t for t in self.threads if t.state == "run"]
@@ -140,6 +233,7 @@ class SimThreads:
         return self._local_trace
 
 
+
 class _T:
     def __init__(self, sim, tid, name, fn):
         self.sim = sim
@@ -160,12 +254,18 @@ class _T:
         try:
             if sim.aborted:
                 return
-            if sim.trace_files:
+            opcode = sim.granularity == "opcode"
+            if sim.trace_files and not opcode:
                 sys.settrace(sim._global_trace)
+            elif opcode:
+                _SIM_THREADS[threading.get_ident()] = sim
             try:
                 self.fn()
             finally:
-                sys.settrace(None)
+                if opcode:
+                    _SIM_THREADS.pop(threading.get_ident(), None)
+                else:
+                    sys.settrace(None)
         except SimAbort:
             pass
         except BaseException as e:  # harness-level: client code must catch SUT errors
